@@ -16,6 +16,11 @@ CONDS = [
     ("_dot", "VJPs of np.dot, ranks 0..3 x 0..3, real/complex kinds", 200),
     ("_tensordot", "VJPs of np.tensordot: axes int 0..2, explicit axis lists in both orders, negative", 300),
     ("_matmul", "VJPs of np.matmul: ranks 1..3, broadcast batch dimensions", 200),
+    ("_rollaxis", "VJP of np.rollaxis: every axis / start on ranks 1..4 (negative ones must be refused)", 120),
+    ("_moveaxis", "VJP of np.moveaxis: every source / destination incl. negative, ranks 1..4", 120),
+    ("_moveaxis2_4", "VJP of np.moveaxis with pairs of axes on rank 4", 240),
+    ("_swapaxes", "VJP of np.swapaxes, ranks 1..4", 120),
+    ("_pad", "VJP of np.pad (constant): all width forms, unbounded widths: the slice removes exactly the padding", 120),
 ]
 
 
